@@ -101,8 +101,11 @@ def to_native(doc, ver, clsname, mode, depth=0):
                 elif d.get("constraint") == "exact" and d.get("precision") == "second":
                     us = 123456
                 base = dt.datetime(y, mo, dd, secs // 3600, secs % 3600 // 60, secs % 60, us)
-                if mode in ("stixdt-aware", "stixdt-other-constraint"):
+                if mode == "stixdt-aware":
                     base = base.replace(tzinfo=dt.timezone.utc)
+                elif mode == "stixdt-other-constraint":
+                    import pytz
+                    base = base.replace(tzinfo=pytz.utc)        # the very tzinfo object the library's own values carry
                 cons = d.get("constraint", "exact")
                 if mode == "stixdt-other-constraint":
                     # a value taken from a property of the same precision but the other constraint (e.g. a 2.1 created/modified,
